@@ -250,6 +250,19 @@ func driveC19(t *testing.T, out *vEmitter) {
 			}
 		}
 		e.idp.stdToken("user@example.com", "", nil)
+		// odd but deliverable spellings of the request host, as Host and as X-Forwarded-Host, on the requests that write cookies
+		for _, h := range []string{"[", "]", "[]", "[::1", "::1]", "[::1]", "[::1]:", "[]:80", "[:", ":", ":80", "a:b:c", ".", "a..b.", "x.example.com.", "-", "[" + strings.Repeat("1", 300) + "]", strings.Repeat("h", 300) + ".example.com"} {
+			for _, tg := range []string{"/oauth2/start?rd=%2Fx", "/oauth2/sign_out", "/", "/oauth2/sign_in", "/oauth2/callback?code=c&state=" + url.QueryEscape(l.State)} {
+				for _, ck := range []string{"", staleCookies, csrfCookies, sessionCookies} {
+					var hs [][2]string
+					if ck != "" {
+						hs = append(hs, [2]string{"Cookie", ck})
+					}
+					tryOne("GET", tg, h, remotes[0], hs, "")
+					tryOne("GET", tg, hosts[0], remotes[0], append(append([][2]string(nil), hs...), [2]string{"X-Forwarded-Host", h}), "")
+				}
+			}
+		}
 		// systematic one-dimension-at-a-time sweeps
 		for _, tg := range targets {
 			for _, q := range queryParams {
